@@ -714,6 +714,10 @@ func indexTerms(t *Term, out map[string]*Term, bound map[string]int) {
 		if t.Args[1].S.K == SInt && closed(t.Args[1], bound) {
 			out[t.Args[1].String()] = t.Args[1]
 		}
+	case "mod", "div":
+		if t.Args[0].S.K == SInt && closed(t.Args[0], bound) {
+			out[t.Args[0].String()] = t.Args[0]
+		}
 	case "app":
 		for _, a := range t.Args {
 			if a.S.K == SInt && closed(a, bound) {
